@@ -1135,7 +1135,7 @@ def far_region(name, opts, eff, x):
             lnf = max(ex_ * lz, 0.0) - (math.log(abs(ex_)) if abs(ex_) > 1e-8 else 0.0)
             # (ex_ - 1) * lz on its own too: the unchanged library forms (1 + |w|)**(ex_ - 1) before multiplying by
             # scale, which underflows to 0.0 for scale ~ 1e100 where the exact product is a normal number -
-            # observed, reported in notes/C02.md, not asserted here
+            # observed on the unchanged tree and reported (run()'s tested_not_proved), not asserted here
             return ok(lz) and ok(lnf) and ok((ex_ - 1) * lz + math.log(sc)) and ok((ex_ - 1) * lz)
         if name == "LogSinh":
             a, b, xmax = math.exp(eff["loga"]), math.exp(eff["logb"]), eff["xmax"]
@@ -1152,8 +1152,8 @@ def far_region(name, opts, eff, x):
             nu, sc = eff["nu"], eff["scale"]
             u = (x - nu) * sc
             # |u| <= 1e150: beyond 1.34e154 the unchanged library's jacobian scale/sqrt(1 + u*u) is 0.0 (u*u
-            # overflows) although the exact derivative scale/|u| is a normal number - observed, reported in
-            # notes/C02.md, not asserted here
+            # overflows) although the exact derivative scale/|u| is a normal number - observed on the unchanged
+            # tree and reported (run()'s tested_not_proved), not asserted here
             if not (math.isfinite(u) and abs(u) <= 1e150):
                 return False
             return ok(math.log(sc) - (math.log(abs(u)) if abs(u) > 1e8 else 0.5 * math.log1p(u * u)))
@@ -1609,7 +1609,7 @@ def run(ctx):
         "independence from the history of parameter changes, from other objects of the class and from the size "
         "of the array (input classes W, L), agreement of the formula selection of jacobian and forward around "
         "the branch thresholds far from the origin (input class X): tested",
-        "far ends of the domain (input class F): tested at ~18000 (thorough: ~155000) points; left out, because "
+        "far ends of the domain (input class F): tested at ~34000 (thorough: ~290000) points; left out, because "
         "the unchanged library does not hold there: Sinh beyond |(x - nu)*scale| = 1e150 (jacobian is 0.0 from "
         "1.34e154 on: u*u overflows) and Yeo-Johnson where (1 + |w|)**(exponent - 1) alone underflows although its "
         "product with scale is a normal number (scale ~ 1e100)",
